@@ -12,7 +12,8 @@ ORACLES = {
     "C12.cbloom_union": "counting-Bloom union has exactly the uint32 counters of one filter fed both streams; check(k) >= summed true counts",
     "C12.cms_join": "after A.join(B), bytes(A) (counters AND element total) is identical to the single sketch fed both streams; B is "
                     "unchanged; no estimate below the summed true counts",
-    "C12.no_exception": "union/join of compatible unsaturated operands does not raise and does not return None",
+    "C12.returns": "union/join of compatible unsaturated operands returns normally and not None",
+    "C12.no_exception": "(soft) an exception while feeding the operands abandons the case; counted, not reported",
 }
 RULE = ("Metamorphic relation. Hypothesis draws a structure type (Bloom with operand kinds in {in-memory, on-disk}^2, counting Bloom, "
         "count-min), one geometry (est 1..60 / fpr list, or width 1..8 x depth 1..5) and hash strategy shared by both operands, a pool "
@@ -61,7 +62,8 @@ def run_case(case, ctx):
     chain = case.get("chain", 0)
     rx, tx = so.resolve(case.get("sx", []), len(pool))
     t = case["t"]
-    noexc = "C12.no_exception"
+    noexc = "C12.returns"
+    ctx.soft_noexc = True
     objs = []
     try:
         if t in ("bloom", "cbloom"):
